@@ -63,3 +63,14 @@ Theorem C14_hypotheses_satisfiable :
   keys_ok (DMap [([97%N], DLink [1; 113; 18; 1; 170]%N); ([98%N], DList [DInt 1; DString [104%N]])]) = true.
 Proof. exact good_example. Qed.
 Print Assumptions C14_hypotheses_satisfiable.
+
+(* Focus / Get called on the Progress handed to a callback (nested focus, focus from a walk's visit): the reported path
+   is the carried path followed by the focused path, the node is what Get from that node reaches, and it fails exactly
+   when that Get fails *)
+Theorem C14_focus_prefix : forall g pre n q v P lb,
+  focus_from g pre n q = Ok (v, P, lb) -> P = pre ++ q /\ get g n q = Ok v.
+Proof. exact focus_from_spec. Qed.
+Print Assumptions C14_focus_prefix.
+Theorem C14_focus_prefix_fails : forall g pre n q e, focus_from g pre n q = Err e <-> get g n q = Err e.
+Proof. exact focus_from_fails. Qed.
+Print Assumptions C14_focus_prefix_fails.
